@@ -525,3 +525,8 @@ def run(ctx, R):
     from psa.rules import c08
     c08.inventory_delete_guard(ctx, R, 'R1.4')
     r15(ctx, R)
+    from psa import sqlshape
+    n = sqlshape.shape_rule(ctx, R, 'R1.6', [
+        'placement.objects.allocation:_check_capacity_exceeded',
+        'placement.objects.allocation:_delete_allocations_for_consumer'])
+    R.count('R1.6', n, 2)
